@@ -69,6 +69,8 @@ def run(ctx):
     evaluate(ctx, cases, CLASSES, {"string": "invalid", "string-valid": "valid", "optional-absent": "by-spec", "null-allowed": "valid", "valid": "valid"},
              "string constraints")
     from vlib.valuecheck import replay_findings
+    from vlib import regress
+    regress.search(ctx, {"C06"})          # the shape-agnostic search step (DESIGN.md 12.8)
     replay_findings(ctx)
     ctx.cov["rule"] = ("systematic: all 7 presence combinations of minLength/maxLength/pattern x 7 positions (required, optional, nullable, nullable required, "
                        "named definition required/optional, array item by reference); random: string-focused in-guard schemas; per schema 2-4 valid documents, "
